@@ -18,6 +18,7 @@ class MySQLParser(SQLParser):
         ('right', UNOT),
         ('left', EQUALS, NEQUALS),
         ('nonassoc', LESS, LEQ, GREATER, GEQ, IN, BETWEEN, IS, IS_NOT, LIKE),
+        ('left', CONCAT),
         ('left', PLUS, MINUS),
         ('left', STAR, DIVIDE, MODULO),
         ('right', UMINUS),  # Unary minus operator, unary not
